@@ -192,8 +192,25 @@ fn path_parse(input: &Value) -> R {
 
 fn path_for_index(input: &Value) -> R {
     let index = s(input, "index")?.parse::<usize>().map_err(|e| format!("index not a usize: {e}"))?;
-    let p = hdk::Path::for_index(index);
-    Ok(ok(json!({ "display": p.to_string() })))
+    Ok(match hdk::Path::for_index(index).into_path_result() {
+        Ok(p) => ok(json!({ "display": p.to_string() })),
+        Err(e) => err(e),
+    })
+}
+
+/// `Path::for_index` is observed whether it is infallible or returns a `Result`.
+trait IntoPathResult {
+    fn into_path_result(self) -> Result<hdk::Path, String>;
+}
+impl IntoPathResult for hdk::Path {
+    fn into_path_result(self) -> Result<hdk::Path, String> {
+        Ok(self)
+    }
+}
+impl<E: ToString> IntoPathResult for Result<hdk::Path, E> {
+    fn into_path_result(self) -> Result<hdk::Path, String> {
+        self.map_err(|e| e.to_string())
+    }
 }
 
 fn hdk_derive(input: &Value) -> R {
